@@ -46,17 +46,23 @@ Definition locale_module (n : pstr) : locale := match find_locale n with Some L 
    * the key f"units.{unit}.{cls}" is the pair (unit, cls) (ukey); loaded_locale.translation(key) = loc_translation: Locale.translation prefixes
      "translations." and Locale.get splits the key at the dots and walks the data (Model/LocaleBase.v lookup) — that split is HAND-MODELLED here
      (the unit names and the plural classes contain no dot); Locale._key_cache is not modelled;
-   * loaded_locale.plural(n) = the generated plural expression of the locale evaluated at n (LocaleBase.lplural);
+   * loaded_locale.plural(n) = the translated Locale.plural on the data of the loaded object (Gen/HumanizeGlue.v loc_plural);
    * translation.format(x) uses x only through str(x) (the shipped templates carry bare {} / {0} fields; LocaleBase.node_format);
    * f"{abs(us) / 1e6:.2f}" = DiffFormat.fmt2 (binary64 division then rounding to hundredths, hand model);
    * `locale or d` on an optional str (Interval.in_words): d for None AND for "". *)
 Definition lpstr : Type := list pstr.
 Definition ukey : Type := (string * string)%type.
 Record gwords := mkgwords { gw_comp : comp; gw_us : Z }.
-Definition loc_plural (L : gloc) (n : Z) : string := lplural (gl_data L) n.
 Definition mk_ukey (u cls : string) : ukey := (u, cls).
 Definition loc_translation (L : gloc) (k : ukey) : result (option node) := lget (gl_data L) ["translations"; "units"; fst k; snd k]%string.
 Definition lp_nil : lpstr := [].
 Definition lp_truth (l : lpstr) : bool := match l with [] => false | _ => true end.
 Definition lp_append (l : lpstr) (x : pstr) : lpstr := l ++ [x].
 Definition opt_str_or (o : option pstr) (d : pstr) : pstr := match o with Some (c :: r) => c :: r | _ => d end.
+
+(* ------------------------------------------------------------------ Locale.plural / ordinal / ordinalize (on the generated locale record)
+   self._data["plural"] / ["ordinal"] are the generated expression ASTs (LocaleBase l_plural / l_ordinal), applied by lplural / lordinal;
+   self.get(f"custom.ordinal.{c}") = loc_get_custom_ordinal (Locale.get's split at the dots HAND-MODELLED, as for loc_translation);
+   str(x) of a looked-up value = LocaleBase.node_str; + on str = pcat *)
+Definition loc_get_custom_ordinal (L : locale) (c : string) : result (option node) := lget L ["custom"; "ordinal"; c]%string.
+Definition pcat (a b : pstr) : pstr := a ++ b.
